@@ -378,6 +378,7 @@ def _shard_main(args):
     modname, tier, seed, scratch, shard, ncases, nfixed = args
     import importlib
     mod = importlib.import_module('bv.props.' + modname)
+    mod.SEED = seed
     b = Build(scratch)
     ctx = Ctx(mod.ID, tier, seed, b, shard)
     st = {'cases': 0, 'execs': 0, 'verdicts': {}, 'labels': {}, 'events': {}, 'hashes': set(), 'nontrivial_hashes': set(),
@@ -391,7 +392,11 @@ def _shard_main(args):
                 case.setdefault('origin', 'fixed')
             else:
                 rng = case_rng(seed, mod.ID, i - nfixed)
-                case = mod.gen_case(rng, i - nfixed, tier)
+                try:
+                    case = mod.gen_case(rng, i - nfixed, tier)
+                except Exception:
+                    st['errors'].append({'case': {'i': i}, 'trace': 'gen_case: ' + traceback.format_exc()[-3000:]})
+                    continue
                 case.setdefault('origin', 'random')
             case['i'] = i
             try:
